@@ -6,6 +6,9 @@ set -u
 cd "$(dirname "$0")/.."
 patch="$(readlink -f "$1")"; shift
 mkdir -p .cache
+# gate first (keeps new checks from starting while we wait), then the lock itself
+exec 8> .cache/repo.gate
+flock -x 8
 exec 9> .cache/repo.lock
 flock -x 9
 if [ -n "$(git -C /repo status --short)" ]; then echo "mutate.sh: /repo is not clean"; exit 3; fi
